@@ -52,5 +52,10 @@ CLAIMS.update({
             'note': 'Converter values (int/float/timestamp arithmetic) are not under contract yet.',
             'technique': 'contract-based deductive verification: regular-language obligations generated from the real patterns (re._parser) and decided by z3; plus pyvc contracts on choose_scalar_style/process_tag', 'design_ref': 'DESIGN.md 5/C08'},
 })
+CLAIMS.update({
+    'C16': {'text': 'Serializer/representer contracts are discharged: anchor names are a function of a per-document counter that restarts at 0 after every document (generate_anchor, serialize, represent), the representer and serializer tables are reset per document, a set is handed to represent_mapping as a dict (so sort_keys applies to sets), tag and text of none/bool/int/str nodes are functions of the value.',
+            'note': 'The sorting step itself (sorted(items)) and the item loop of represent_mapping are assumed, not discharged; the dump fixed point and hash-seed independence are not claimed.',
+            'technique': _T, 'design_ref': 'DESIGN.md 5/C16'},
+})
 for _p in CLAIMS:
     NOT_APPLICABLE.pop(_p, None)
